@@ -1387,7 +1387,12 @@ def rat_binop(op, a, b):
     raise AnalysisError(f"symbolic op {op}")
 
 
+COMPARE_HOOKS: list = []  # rule-supplied observers fn(op, a, b) of every scalar comparison (operand extraction)
+
+
 def rat_compare(op, a, b):
+    for _h in COMPARE_HOOKS:
+        _h(op, a, b)
     # an infinite float against a (finite) symbolic value: decided by the sign of the infinity
     for x, y, flip in ((a, b, False), (b, a, True)):
         if isinstance(y, float) and math.isinf(y) and not (isinstance(x, float) and math.isinf(x)):
